@@ -129,4 +129,17 @@ def check(spec, ctx):
             raise Violation("tick-text-unreadable", "%r" % s_)
         if abs(v - x) > 1e-3 * stf:
             raise Violation("tick-text-readback", "tick %r formatted as %r (step %r)" % (x, s_, stf))
+    # the same scale object, asked again after nice(): its ticks must be those of a fresh scale with the domain it now reports
+    t_again = lib_call(lambda: list(s.ticks(m)))
+    if t_again != t:
+        raise Violation("ticks-change-when-asked-twice", "domain [%r, %r], m=%r: %r then %r" % (a, b, m, t[:4], t_again[:4]))
+    lib_call(s.nice, m)
+    nd = list(s.domain())
+    t_nice = lib_call(lambda: list(s.ticks(m)))
+    t_fresh = lib_call(lambda: list(LinearScale().domain(list(nd)).ticks(m)))
+    if t_nice != t_fresh:
+        raise Violation("stale-ticks-after-nice", "domain [%r, %r], m=%r: after nice() the scale reports %r but its ticks are %r...%r; a fresh scale with that domain gives %r...%r" % (a, b, m, nd, t_nice[:2], t_nice[-2:], t_fresh[:2], t_fresh[-2:]))
+    f_nice, f_fresh = lib_call(s.tickFormat, m), lib_call(LinearScale().domain(list(nd)).tickFormat, m)
+    if [f_nice(x) for x in t_fresh[:5]] != [f_fresh(x) for x in t_fresh[:5]]:
+        raise Violation("stale-tick-format-after-nice", "domain [%r, %r], m=%r" % (a, b, m))
     return True
